@@ -293,7 +293,13 @@ func (s *Solver) emitOne(x *Term, w *strings.Builder) {
 		body = setExpr(a, x.set)
 	case OBitAnd, OBitOr, OBitXor:
 		f := map[Op]string{OBitAnd: "bvand", OBitOr: "bvor", OBitXor: "bvxor"}[x.op]
-		body = fmt.Sprintf("(bv2nat (%s ((_ int2bv %d) %s) ((_ int2bv %d) %s)))", f, x.bits, a, x.bits, b)
+		u := fmt.Sprintf("(bv2nat (%s ((_ int2bv %d) %s) ((_ int2bv %d) %s)))", f, x.bits, a, x.bits, b)
+		if x.signed {
+			// two's complement: operands may be negative, the result is read as a signed 32-bit value
+			body = fmt.Sprintf("(let ((u %s)) (ite (>= u 2147483648) (- u 4294967296) u))", u)
+		} else {
+			body = u
+		}
 	case OWrap:
 		lo, _ := cachedTypeRange(x.bits, x.signed)
 		m := new(big.Int).Lsh(big.NewInt(1), uint(x.bits))
